@@ -30,17 +30,18 @@ import (
 func init() { Registry["C06"] = runC06 }
 
 type ovPoint struct {
-	Fam     []int    `json:"fam"`
-	Call    []string `json:"call"`
-	Ell     bool     `json:"ell"`
-	Idx     int      `json:"idx"`
-	Muts    []string `json:"muts"`
-	Res     string   `json:"res"`
-	DevIdx  int      `json:"devidx"`
-	DevMuts []string `json:"devmuts"`
-	GoApp   []bool   `json:"goapp"`
-	XApp    []bool   `json:"xapp"`
-	Kind    string   `json:"kind,omitempty"` // replay only: the realisation that failed
+	Fam      []int    `json:"fam"`
+	Call     []string `json:"call"`
+	Ell      bool     `json:"ell"`
+	Idx      int      `json:"idx"`
+	Muts     []string `json:"muts"`
+	Res      string   `json:"res"`
+	DevIdx   int      `json:"devidx"`
+	DevMuts  []string `json:"devmuts"`
+	DevAbort bool     `json:"devabort"`
+	GoApp    []bool   `json:"goapp"`
+	XApp     []bool   `json:"xapp"`
+	Kind     string   `json:"kind,omitempty"` // replay only: the realisation that failed
 }
 
 type ovSig struct {
@@ -158,7 +159,7 @@ func ovCheckFixture(src string) (*types.Package, error) {
 	return (&types.Config{}).Check("ov", fset, []*ast.File{f}, nil)
 }
 
-var ovArgText = map[string]string{"c1": "1", "c15": "1.5", "cs": `"s"`, "vi": "vi", "vf": "vf", "vs": "vs", "vmy": "vmy", "vsl": "vsl", "vbig": "vbig", "nil": "nil", "gid": "ov.Id", "ov1": "ov.G__0"}
+var ovArgText = map[string]string{"c1": "1", "c15": "1.5", "cs": `"s"`, "vi": "vi", "vf": "vf", "vs": "vs", "vmy": "vmy", "vsl": "vsl", "vbig": "vbig", "nil": "nil", "gid": "ov.Id", "ov1": "ov.G__0", "tup": "pair()"}
 
 // ---------- T: go/types on one-liners, per (signature, call, ell) ----------
 
@@ -179,7 +180,7 @@ func ovReference(ovPkg *types.Package, base types.Importer, need map[string]ovPo
 	}
 	sort.Strings(keys)
 	var b strings.Builder
-	b.WriteString("package q\nimport \"ov\"\nvar vi int\nvar vf float64\nvar vs string\nvar vmy ov.MyInt\nvar vsl []int\nvar vbig ov.Big\nfunc body() {\n")
+	b.WriteString("package q\nimport \"ov\"\nvar vi int\nvar vf float64\nvar vs string\nvar vmy ov.MyInt\nvar vsl []int\nvar vbig ov.Big\nfunc pair() (int, string) { return 0, \"\" }\nfunc body() {\n")
 	first := strings.Count(b.String(), "\n") + 1
 	for _, k := range keys {
 		p := need[k]
@@ -253,6 +254,8 @@ func newOvWorld(ovPkg *types.Package, base types.Importer, fams [][]int) *ovWorl
 	pkg.NewVar(token.NoPos, T("MyInt"), "vmy")
 	pkg.NewVar(token.NoPos, types.NewSlice(ti), "vsl")
 	pkg.NewVar(token.NoPos, T("Big"), "vbig")
+	pkg.NewFunc(nil, "pair", nil, types.NewTuple(types.NewParam(token.NoPos, pkg.Types, "", ti), types.NewParam(token.NoPos, pkg.Types, "", types.Typ[types.String])), false).
+		BodyStart(pkg).Val(0).Val("").Return(2).End()
 	for _, f := range fams {
 		n := famName(f)
 		if w.ov.TryRef("V"+n) != nil {
@@ -387,6 +390,8 @@ func (w *ovWorld) call(p ovPoint, kind string) (g ovG, applicable bool) {
 			cb.Val(w.ov.Ref("Id"))
 		case "ov1":
 			cb.Val(w.ov.Ref("G"))
+		case "tup":
+			cb.Val(ref("pair")).Call(0)
 		default:
 			cb.Val(ref(a))
 		}
@@ -523,7 +528,7 @@ func runC06(tier, replay string) {
 		name, sigs, forms string
 		maxFam, maxArgs   int
 	}
-	allForms := `{"c1","c15","cs","vi","vf","vs","vmy","vsl","vbig","nil","gid","ov1"}`
+	allForms := `{"c1","c15","cs","vi","vf","vs","vmy","vsl","vbig","nil","gid","ov1","tup"}`
 	allSigs := "{1,2,3,4,5,6,7,8,9,10,11,12,13,14,15,16,17,18,19,20,21}"
 	confs := []cfgT{{"pairs-of-21-signatures", allSigs, allForms, 2, 2}}
 	if tier == "thorough" {
@@ -671,16 +676,30 @@ func runC06(tier, replay string) {
 					w.fn = nil
 					continue
 				}
-				// the named deviation of the model (generic function value accepted for an interface parameter) explains the outcome
+				// the named deviations of the model explain the outcome
+				if p.DevAbort && g.rejected && strings.Contains(g.msg, "unexpected *types.Tuple") {
+					if p.Idx != 0 {
+						run.Fail("generic-candidate-aborts-resolution-on-multi-value-call", fmt.Sprintf("%s: candidate %d applies, but the generic candidate tried before it aborts the resolution: %s", desc, p.Idx-1, firstLines(g.msg, 1)), pk)
+					}
+					continue
+				}
 				if (p.DevIdx != p.Idx || strings.Join(p.DevMuts, ",") != strings.Join(p.Muts, ",")) && !g.rejected && ovCalleeIdx(g.callee, kind, p) == p.DevIdx {
 					dp := p
 					dp.Muts = p.DevMuts
+					tup := len(p.Call) == 1 && p.Call[0] == "tup"
+					if tup {
+						dp.Muts = nil // a conversion of a value of a multi-value call cannot appear in the emitted call
+					}
 					if strings.Join(ovExpectArgs(dp), " ; ") == strings.Join(g.args, " ; ") {
 						effect := "wrong-candidate"
 						if p.Idx == 0 {
 							effect = "accepted-although-no-candidate-applies"
 						}
-						run.Fail("generic-function-value-accepted-for-interface-parameter/"+effect, fmt.Sprintf("%s: Go rejects an uninstantiated generic function as an interface value; the builder emits %s(%s) (Go: candidate %d)", desc, g.callee, strings.Join(g.args, ", "), p.Idx-1), pk)
+						if tup {
+							run.Fail("tinit-conversion-assumed-for-multi-value-call/"+effect, fmt.Sprintf("%s: a value of a multi-value call cannot be converted through T_Init; the builder emits %s(%s) (Go: candidate %d)", desc, g.callee, strings.Join(g.args, ", "), p.Idx-1), pk)
+						} else {
+							run.Fail("generic-function-value-accepted-for-interface-parameter/"+effect, fmt.Sprintf("%s: Go rejects an uninstantiated generic function as an interface value; the builder emits %s(%s) (Go: candidate %d)", desc, g.callee, strings.Join(g.args, ", "), p.Idx-1), pk)
+						}
 						continue
 					}
 				}
